@@ -93,6 +93,9 @@ func StripAnsi(src []byte, flag StripAnsiFlag) (dst []byte) {
 		//nolint:revive
 		for idxP = idxP + 1; idxP < len(src) && isEscapeParam(src[idxP]); idxP = idxP + 1 {
 		}
+		if idxP == len(src) { // the sequence is cut off by the end of src (C reads the terminating \0 here)
+			break
+		}
 		p = src[idxP]
 
 		if (flag == STRIP_ANSI_NO_RELOAD && isEscapeCommand(p)) || (flag == STRIP_ANSI_ONLY_COLOR && p == 'm') {
